@@ -87,7 +87,6 @@ func vfC23Expect(rs []vfC23Reply, numNodes int) (consumed, nerr, k0, k1, p0, p1 
 //vf:unwind 16
 //vf:bound inputs <=3 replies (empty | wrong type byte | undecodable | failed with/without message | ok listing a subset of 2 keys and a primary); member count 1..4
 //vf:stub codec -> identity on tokens
-//vf:nonative
 func VfC23_Aggregate() {
 	s := vfNewSerf("self", 1)
 	k := &KeyManager{serf: s}
